@@ -180,8 +180,9 @@ def case_deferred(seed, out, spec, wd, idx):
         ev = rig.current_event()
         rec = {'ev': ev, 'tid': threading.get_ident()}
         if callback == 'span_open':
-            # called from inside the plugin's own record step: its call counter already includes this call
-            rec.update(kind='span', key=(name, plugins.CALLS.get((name, 'span_open'), 1) - 1), tp=payload['tp'])
+            # the index the recording span will carry (taken under the recorder's lock, not re-read here: another
+            # thread may have opened a span in between)
+            rec.update(kind='span', key=(name, plugins.hook_call_index()), tp=payload['tp'])
             opens_span.append(rec)
             with lock:
                 opens.append(rec)
